@@ -309,8 +309,24 @@ theorem scheduled_envOf (st : State) (σ : Sched) (t : Task) : Scheduled (envOf 
   rw [hb]
   cases t.optional <;> simp
 
-/-- the documented meaning of the constraint classes of the core fragment, on a schedule -/
+/-- task groups on a schedule: the scheduled members lie inside the window; without a window, the span from the
+    earliest start to the latest end of the scheduled members is at most `len` -/
+def GroupMeaningS (σ : Sched) (ts : List Task) (window : Option (Int × Int)) (len : Int) : Prop :=
+  match window with
+  | some (lo, hi) => ∀ t ∈ ts, σ.isSched t = true → lo ≤ σ.start t.name ∧ σ.end_ t.name ≤ hi
+  | none => ∀ t ∈ ts, ∀ t' ∈ ts, σ.isSched t = true → σ.isSched t' = true → σ.end_ t.name - σ.start t'.name ≤ len
+
+/-- consecutive members of an ordered group, when both are scheduled: `end ⋈ next start` -/
+def ConsecS (k : OrdKind) (σ : Sched) : List Task → Prop
+  | a :: b :: rest =>
+      (σ.isSched a = true → σ.isSched b = true → ordHolds k (σ.end_ a.name) (σ.start b.name)) ∧ ConsecS k σ (b :: rest)
+  | _ => True
+
+/-- the documented meaning of the constraint classes of the core fragment, on a schedule (the two group classes are
+    outside `CBody.inCore`: they come with auxiliary variables and are handled by `PS/Theorems/Groups.lean`) -/
 def CoreMeaning (st : State) (σ : Sched) : CBody → Prop
+  | .unorderedGroup ts window len => GroupMeaningS σ ts window len
+  | .orderedGroup ts window len kind => GroupMeaningS σ ts window len ∧ ConsecS kind σ ts
   | .startAt t v => σ.isSched t = true → σ.start t.name = v
   | .startAfter t v strict => σ.isSched t = true → (if strict then v < σ.start t.name else v ≤ σ.start t.name)
   | .endAt t v => σ.isSched t = true → σ.end_ t.name = v
@@ -370,7 +386,7 @@ def CBody.inCore : CBody → Bool
   | .indicatorTarget .. | .indicatorBounds .. => true
   | b => b.isConn
 
-theorem core_raw_complete (st : State) (σ : Sched) (c : Nat) (b : CBody)
+theorem core_raw_complete (st : State) (σ : Sched) (c : Nat) (b : CBody) (hin : b.inCore = true)
     (ht : ∀ t ∈ b.coreTasks, st.findTask t.name = some t)
     (hm : CoreMeaning st σ b) : Sat (envOf st σ) (b.raw c) := by
   have S := fun t (h : t ∈ b.coreTasks) => envOf_tStart st σ t (ht t h)
@@ -563,6 +579,8 @@ theorem core_raw_complete (st : State) (σ : Sched) (c : Nat) (b : CBody)
     simp only [CoreMeaning, CBody.isConn, if_true] at hm
     exact (C10_connective_raw c _ rfl _).2 hm
 
+  case unorderedGroup => simp [CBody.inCore, CBody.isConn] at hin
+  case orderedGroup => simp [CBody.inCore, CBody.isConn] at hin
   all_goals (simp [CoreMeaning, CBody.isConn] at hm)
 
 end PS
@@ -683,11 +701,11 @@ theorem C05_complete_core (cfg : Config) (st : State) (σ : Sched) (hcore : InCo
     · have := (C10_optional c hopt (hdir hopt) (envOf st σ)).2 (by
         intro happ
         have happ' : σ.applied c.id = true := happ
-        exact core_raw_complete st σ c.id c.body htk (hv.constrs c hc hop (fun _ => happ')))
+        exact core_raw_complete st σ c.id c.body hin htk (hv.constrs c hc hop (fun _ => happ')))
       exact this a h1
     · have hopt' : c.optional = false := by cases hh : c.optional <;> simp_all
       rw [C10_mandatory c hopt'] at h1
-      exact core_raw_complete st σ c.id c.body htk (hv.constrs c hc hop (fun h => absurd h hopt)) a h1
+      exact core_raw_complete st σ c.id c.body hin htk (hv.constrs c hc hop (fun h => absurd h hopt)) a h1
   · obtain ⟨i, hi, h1⟩ := h
     exact indicator_complete st σ hcore.indicators i hi a h1
   · obtain ⟨t, ht, h1⟩ := h
